@@ -134,6 +134,15 @@ CHECKS.update({
    note="derivative comparison is made only where the numerical derivative is well resolved (about 1 call in 6); 1% tolerance finds formula errors, not last-digit inaccuracy"),
 })
 
+CHECKS.update({
+ "C15": dict(level="exploration", engine="hypothesis", design="3/C15",
+   technique="schedule exploration with a harness-owned schedule: guarded call-outs (MP_VERIF_HOOKS) between the stores of SignalHandler's constructor/SetHandler/destructor let the "
+             "harness raise SIGINT/SIGTERM exactly there; Hypothesis-generated scenarios (steps x 1..3 signal placements) judged by a reference model; plus a full single-signal sweep",
+   text="30000 generated scenarios per quick run plus every single-signal position of a canonical scenario: lost signals (stop query), callback/data pairing, third-interrupt exit, "
+        "no call after destruction, number of <BREAK> messages.",
+   note="signals are raised synchronously at call-out points; positions inside one atomic store are not distinguished"),
+})
+
 NOT_APPLICABLE = []
 
 def main():
@@ -188,6 +197,6 @@ def main():
     except ImportError:
         print("written (jsonschema not available for validation)")
 
-HOOK_COMMITS = []
+HOOK_COMMITS = ["8122cf6", "d57a1f6"]
 if __name__ == "__main__":
     main()
